@@ -5,6 +5,7 @@ import XonshVerif.Proofs.StringTiling
 import XonshVerif.Proofs.TokStructure
 import XonshVerif.Proofs.TokCover
 import XonshVerif.Proofs.TokOrder
+import XonshVerif.Proofs.FstringText
 namespace XV.Tz
 open XV XV.Rx
 
@@ -163,5 +164,33 @@ theorem tokens_in_position_order (E : Env) (P : Pats) (hP : PseudoProgress P) (h
 
 /-- Non-vacuity: the indentation example is a real chain of 13 tokens. -/
 example : (tokenize ⟨[], []⟩ indPats indSrc).err = none ∧ (tokenize ⟨[], []⟩ indPats indSrc).toks.length = 13 := by decide +kernel
+
+
+/-- **fstring_middle_tokens_are_source_slices.**  Under the hypotheses of `tokens_in_position_order`, every
+    FSTRING_MIDDLE token - the literal parts of an f-string and its format specs, across any number of lines and inside
+    nested f-strings - has as its text exactly the source characters between its start and end coordinates. -/
+theorem fstring_middle_tokens_are_source_slices (E : Env) (P : Pats) (hP : PseudoProgress P) (hF : FstrLen P) (src : List Nat)
+    (hfin : (tokenize E P src).err = none) :
+    ∀ t ∈ (tokenize E P src).toks, t.ty = .FSTRING_MIDDLE → t.str = srcText (splitLines src []) t.start t.stop := by
+  unfold tokenize at hfin ⊢
+  simp only [] at hfin ⊢
+  cases h : tokenizeLines E P ((splitLines src []).length + 2) (splitLines src []) TState.init [] with
+  | error e => rw [h] at hfin; simp at hfin
+  | ok ts =>
+    simp only []
+    exact tokenizeLines_ft (splitLines src []) E P hP hF _ _ TState.init [] ts ⟨0, 0⟩ rfl (OI.empty (Pos.le_refl' _))
+      (by intro p rest hp; cases hp) (by simp [TState.init]) (MidOK.nil _) h
+
+/-- **all_tokens_but_fstring_delimiters_are_source_slices**: the two slice theorems together - every token except
+    FSTRING_END and the `{` / `}` operators emitted by the f-string scanner carries the source text between its
+    coordinates. -/
+theorem all_tokens_but_fstring_delimiters_are_source_slices (E : Env) (P : Pats) (hP : PseudoProgress P) (hF : FstrLen P)
+    (src : List Nat) (hfin : (tokenize E P src).err = none) :
+    ∀ t ∈ (tokenize E P src).toks, t.ty ≠ .FSTRING_END → ¬ (t.ty = .OP ∧ (t.str = [123] ∨ t.str = [125])) →
+      t.str = srcText (splitLines src []) t.start t.stop := by
+  intro t ht h1 h2
+  by_cases hm : t.ty = .FSTRING_MIDDLE
+  · exact fstring_middle_tokens_are_source_slices E P hP hF src hfin t ht hm
+  · exact tokens_are_source_slices E P hP src hfin t ht ⟨hm, h1, h2⟩
 
 end XV.Tz
